@@ -54,6 +54,22 @@ Proof.
     apply E in T. lia.
 Qed.
 
+(* the table depends only on the residue class of p modulo 840 *)
+Lemma check_gp_mod840 g p : 0 <= p -> check_gp g p = check_gp g (p mod 840).
+Proof.
+  intros Hp. pose proof (Z.mod_pos_bound p 840 ltac:(lia)) as Hm.
+  unfold check_gp.
+  gp_case g 2; [|gp_case g 3; [|gp_case g 4; [|gp_case g 5; [|gp_case g 6; [|gp_case g 7]]]]];
+    cbv zeta; rewrite ?check_subgroup_spec by lia; try reflexivity;
+    rewrite ?(Zmod_div_mod 8 840 p), ?(Zmod_div_mod 3 840 p), ?(Zmod_div_mod 5 840 p),
+            ?(Zmod_div_mod 24 840 p), ?(Zmod_div_mod 7 840 p)
+      by (try lia; first [exists 105; reflexivity | exists 280; reflexivity | exists 168; reflexivity
+                          | exists 35; reflexivity | exists 120; reflexivity]);
+    reflexivity.
+Qed.
+Lemma classes_covered_true : classes_covered = true.
+Proof. vm_compute. reflexivity. Qed.
+
 (* ---------- CheckDH ---------- *)
 Theorem check_dh_spec prime g p : 0 <= p ->
   (check_dh prime g p = 0 <->
@@ -271,4 +287,40 @@ Proof.
   pose proof (pq_outer_no_panic rounds fuel pq H 0 0 rnd) as Hn.
   destruct (pq_outer rounds fuel pq 0 0 rnd) as [g| |]; [|discriminate|contradiction].
   cbv zeta. destruct (g >? pq / g); discriminate.
+Qed.
+
+(* a product of two primes is never rejected up front (the guard only refuses pq < 4 and primes) *)
+Lemma pq_outer_not_reject rounds fuel what : forall i g rnd, pq_outer rounds fuel what i g rnd <> Err EReject.
+Proof.
+  induction rounds as [|r IH]; intros i g rnd; cbn [pq_outer].
+  - destruct ((1 <? g) && (g <? what)); discriminate.
+  - destruct ((1 <? g) && (g <? what)); [discriminate|].
+    destruct rnd as [|r1 [|r2 rnd']]; try discriminate.
+    destruct (what =? 0); [discriminate|]. destruct (what - 1 =? 0); [discriminate|].
+    cbv zeta. destruct (pq_inner _ _ _ _ _ _ _ _); [apply IH|discriminate].
+Qed.
+Theorem semiprime_not_rejected isp rounds fuel a b rnd :
+  prime a -> prime b -> (isp = true -> prime (a * b)) ->
+  decompose_pq isp rounds fuel (a * b) rnd <> Err EReject.
+Proof.
+  intros Ha Hb Hisp. pose proof (prime_ge_2 a Ha). pose proof (prime_ge_2 b Hb).
+  assert (Hnp : ~ prime (a * b)).
+  { intros Hp. destruct (prime_divisors _ Hp a (Z.divide_factor_l a b)) as [?|[?|[?|?]]]; nia. }
+  unfold decompose_pq. destruct (Z.ltb_spec (a * b) 4); [nia|]. cbn [orb].
+  destruct isp; [exfalso; apply Hnp, Hisp; reflexivity|].
+  pose proof (pq_outer_not_reject rounds fuel (a * b) 0 0 rnd) as Hn.
+  destruct (pq_outer rounds fuel (a * b) 0 0 rnd) as [g|e|]; [|congruence|discriminate].
+  cbv zeta. destruct (g >? a * b / g); discriminate.
+Qed.
+
+(* fuel adequacy of the inner loop: with fuel >= lim - j it never runs out, so EFuel can only come
+   from the number of rounds *)
+Lemma pq_inner_fuel_ok fuel : forall what v x y j lim g,
+  lim - j <= Z.of_nat fuel -> pq_inner fuel what v x y j lim g <> None.
+Proof.
+  induction fuel as [|f IH]; intros what v x y j lim g H; cbn [pq_inner].
+  - destruct (Z.ltb_spec j lim); cbn [negb]; [lia|discriminate].
+  - destruct (Z.ltb_spec j lim); cbn [negb]; [|discriminate].
+    cbv zeta. match goal with |- context [negb (?c =? 1)] => destruct (negb (c =? 1)) end; [discriminate|].
+    apply IH. lia.
 Qed.
